@@ -23,7 +23,7 @@ from sim.partdseam import PartdSeam
 from sim.world import Session, classify, exc_detail, exc_signature, reference_world
 
 PROPERTY = "C12"
-SESSIONS = {"quick": 400, "thorough": 12000}
+SESSIONS = {"quick": 400, "thorough": 900}
 BUDGET_S = {"quick": 80, "thorough": 1500}
 CAP_S = {"quick": 240, "thorough": 480}
 RULE = ("one session = one shuffle configuration (table, key columns/dtypes, n_in, n_out, max_branch, method, ignore_index, "
